@@ -125,3 +125,23 @@ PROPS["C16"] = dict(
     stages=[dict(name="float", target="c16", quick=dict(cases=800, maxsize=80), thorough=dict(cases=4000, maxsize=100)),
             dict(name="exact", target="c16", x=dict(mode="exact"), quick=dict(cases=50, maxsize=70, timeout=2400), thorough=dict(cases=300, maxsize=100))],
 )
+
+PROPS["C05"] = dict(
+    level="exploration",
+    rule=("planted LPs (all classes, 50% with power-of-two row/column factors) x representation {auto, column, row} x 7 scalers x "
+          "persistent scaling x simplifier {off, on} x algorithm; the basis comes from a solve (any final status), a solve stopped "
+          "by an iteration limit, setBasis with a generated regular basis (exact rank test), or a solve followed by such a setBasis "
+          "(so that the LP inside is scaled). B is assembled from the MODEL by getBasisInd (column j / unit vector of row i) and "
+          "every query is judged in exact arithmetic: B * invcol_k = e_k and invrow_k * B = e_k^T for EVERY k, solve(B v) = v, "
+          "multBasis(v) = B v, multBasisTranspose(v) = B^T v (tolerance 1e-8 (1 + |B|max |z|max m)), the sparse index output lists "
+          "exactly the nonzero positions. With unscale=false on a scaled LP B is assembled from the scaled columns the solver holds "
+          "(read-only hook). non-trivial = m >= 2, B regular with >= 1 structural column and all five query kinds judged; "
+          "distinct = case text."),
+    assumptions=["a basis installed by setBasis is loaded lazily; the order of the basis members is the one getBasisInd reports after the "
+                 "first inverse query", "sparse output: the caller passes a cleared coefficient array (the implementation writes only the "
+                 "listed positions)", "singular bases returned by solves are skipped here (C04 judges them)",
+                 "the rational counterparts are decided under C11"],
+    min_nontrivial=dict(quick=2000, thorough=60000),
+    stages=[dict(name="basisq", target="c05", quick=dict(cases=500, maxsize=80), thorough=dict(cases=20000, maxsize=100)),
+            dict(name="asan", target="c05", flavour="asan", quick=dict(cases=60, maxsize=60), thorough=dict(cases=2000, maxsize=100))],
+)
